@@ -173,6 +173,9 @@ class Elf(BinFormat):
             for s in reversed(self.Shdr):
                 if s.sh_type != SHT_PROGBITS:
                     continue
+                if not (s.sh_flags & SHF_ALLOC):
+                    # not part of the memory image (sh_addr is 0)
+                    continue
                 if s.sh_addr <= addr < s.sh_addr + s.sh_size:
                     return s, addr - s.sh_addr, s.sh_addr
         if self.Phdr:
